@@ -11,6 +11,8 @@ TRUSTED_BASE = [
     'three threads released one boundary at a time by a scheduler that snapshots the store after every boundary',
     'the names found under the store directory are classified inside Coq (Store.Paths.classify) and resolve_store_path is compared with Store.Paths.final_name; '
     'a write can fail at write() or - buffered - at close() (two fault kinds of the model)',
+    'TRANSLATOR (harness/translate_store.py, fail-closed): the OntologyType identifiers, the file-name f-string of resolve_store_path and the mkstemp prefix / suffix are read off the '
+    'source AST on every run and proved equal to Store.Paths (work/C07/StoreGen.v)',
     'PARTIAL: fsync / power-loss durability and non-POSIX rename semantics are outside the model (os.replace assumed atomic, mkstemp names unique and never a cache location); '
     'thread preemption inside a boundary is not explored',
 ]
@@ -181,6 +183,9 @@ def gen(chk):
 
 
 def run(chk):
+    import translate_store
+    from common import REPO
+    broken_tie = chk.translation_tie(translate_store.translate, REPO / 'src' / 'hpotk' / 'store' / '_api.py', 'StoreGen.v')
     cases = gen(chk)
     for c in cases:
         chk.count('kind:' + c['kind'])
@@ -204,6 +209,8 @@ def run(chk):
                 '(thorough: all 12870 interleavings of 8 + 8 boundaries), races with faulty loaders / other releases / three loaders, the store snapshot after EVERY boundary; latest-tag selection on 68 tag lists')
     if failing:
         report(chk, cases, obs, failing)
+    if broken_tie:
+        chk.report_broken_tie('C07:translation', broken_tie, 'Lemma names_src_ok (work/C07/StoreGen.v)', 'C07_names / C07_names_distinct / C07_names_type_directory')
 
 
 def sig_of(case, problems):
